@@ -53,7 +53,7 @@ pub fn passes(tier: &str) -> Vec<Pass> {
 pub fn run(tier: &str) -> i32 {
     let t0 = Instant::now();
     let mut o = Outcome::new("C11", tier, "model_checking");
-    let ps = passes(tier);
+    let ps = with_dedup(passes(tier), tier);
     for p in &ps {
         // journal bookkeeping for the seqno clause
         let _ = p;
